@@ -120,6 +120,25 @@ cdef long c_raise_%(s)s(long n, int nt, int chunk, long k1, long k2, long kret) 
 
 def raise_%(s)s(n, nt, chunk, k1, k2, kret):
     return c_raise_%(s)s(n, nt, chunk, k1, k2, kret)
+
+def rb_%(s)s(long n, int nt, int chunk, long k1, long k2, long kb):
+    # raise and break (but no return) in different iterations of one region
+    cdef long i
+    for i in prange(n, nogil=True, num_threads=nt, schedule='%(s)s'%(chunk)s):
+        sim_rec(1, i)
+        sim_yield()
+        if i == k1 or i == k2:
+            sim_rec(2, i)
+            with gil:
+                raise Boom(i)
+        if i == kb:
+            sim_rec(4, i)
+            break
+        sim_yield()
+    else:
+        sim_rec(9, 0)
+    sim_rec(7, 0)
+    return 0
 '''
 
 PAR = '''
@@ -210,7 +229,7 @@ def seq_range(a, b, step):
 
 def gen_case(rng):
     sched = rng.choice(SCHEDS)
-    kind = rng.choice(["red", "red", "redi", "fill", "brk", "ret", "raise", "raise", "par_two", "par_local", "cond"])
+    kind = rng.choice(["red", "red", "redi", "fill", "brk", "ret", "raise", "raise", "rb", "rb", "par_two", "par_local", "cond"])
     nt = rng.choice([1, 2, 2, 3, 3, 4, 5, 8])
     chunk = rng.choice([1, 1, 2, 3, 5, 16])
     policy = rng.choice([0, 0, 0, 1, 2])
@@ -258,6 +277,8 @@ def run_case(mod, lib, boom, case):
             out = getattr(mod, "ret_" + s)(case["n"], case["nt"], case["chunk"], case["k1"], case["k2"])
         elif k == "raise":
             out = getattr(mod, "raise_" + s)(case["n"], case["nt"], case["chunk"], case["k1"], case["k2"], case["kret"])
+        elif k == "rb":
+            out = getattr(mod, "rb_" + s)(case["n"], case["nt"], case["chunk"], case["k1"], case["k2"], case["kret"])
         elif k == "par_two":
             out = mod.par_two(case["n"], case["m"], case["nt"], case["chunk"])
         elif k == "par_local":
@@ -341,8 +362,9 @@ def run_case(mod, lib, boom, case):
         if dup or any(not (0 <= x < n) for x in started):
             v = bad("iteration-executed-twice-or-out-of-range", {"started": sorted(started)})
         elif raised:
-            if exc is None or exc[0] != "Boom" or exc[1][0] not in raised:
-                v = bad("raised-exception-did-not-win", {"raised_in_iterations": raised, "outcome": out, "exc": exc})
+            after_region = any(tag == 7 for tag, val, th in log)
+            if exc is None or exc[0] != "Boom" or exc[1][0] not in raised or after_region:
+                v = bad("raised-exception-did-not-win", {"raised_in_iterations": raised, "outcome": out, "exc": exc, "code_after_region_ran": after_region})
         elif exc is not None:
             v = bad("exception-without-raising-iteration", {"exc": exc})
         elif returned:
@@ -375,7 +397,9 @@ def one_run(check, seed, i, cfg):
                 res["faults"][kk] = res["faults"].get(kk, 0) + st[kk]
         res["probes"]["kind:" + case["kind"]] = res["probes"].get("kind:" + case["kind"], 0) + 1
         res["probes"]["sched:" + case["sched"]] = res["probes"].get("sched:" + case["sched"], 0) + 1
-        if case["kind"] in ("raise",) and r["exc"]:
+        if case["kind"] == "rb" and any(t == 2 for t, _, _ in r["log"]) and any(t == 4 for t, _, _ in r["log"]):
+            res["probes"]["raise_and_break_in_one_region"] = res["probes"].get("raise_and_break_in_one_region", 0) + 1
+        if case["kind"] in ("raise", "rb") and r["exc"]:
             res["probes"]["exception_handoff"] = res["probes"].get("exception_handoff", 0) + 1
             if len([1 for t, v_, th in r["log"] if t == 2]) >= 2:
                 res["probes"]["several_iterations_raised"] = res["probes"].get("several_iterations_raised", 0) + 1
